@@ -395,6 +395,16 @@ class World:
     def load(self, loader, data, delim=":", strict=True, extra=(), via="obj"):
         I = self.I
         op = {"k": "load", "loader": loader, "delim": I(delim), "strict": strict}
+        if loader == "rdflib":
+            # bind the pairs on an rdflib graph; what the graph LISTS is the input the converter must denote
+            import rdflib
+            g = rdflib.Graph(bind_namespaces="none")
+            for a, b in data:
+                g.bind(a, rdflib.Namespace(b), override=True, replace=True)
+            listing = [(str(a), str(b)) for a, b in g.namespaces()]
+            op["loader"] = "prefix_map"
+            op["data"] = [[I(a), I(b)] for a, b in listing]
+            return self._derive(op, lambda: Converter.from_rdflib(g if via != "path" else g.namespace_manager, delimiter=delim, strict=strict), [], extra)
         if loader in ("prefix_map", "reverse"):
             op["data"] = [[I(a), I(b)] for a, b in data]
             obj = dict(data)
